@@ -46,8 +46,10 @@ func (g *Gen) preludeText(strMode bool) string {
 	sb.WriteString(preludeHead)
 	if strMode {
 		sb.WriteString(preludeBytesStr)
+		sb.WriteString("(define-fun cexmode () Bool true)\n")
 	} else {
 		sb.WriteString(preludeBytesAbs)
+		sb.WriteString("(define-fun cexmode () Bool false)\n")
 	}
 	sb.WriteString(preludeCommon)
 	sb.WriteString(preludeStd)
